@@ -1231,10 +1231,58 @@ def value_item_family(ctx):
                     type(item).__name__, bad[:60], exc, before[:5], after[:5]), KNOWN_PRED)
 
 
+def medialist_edge_family(ctx):
+    """media lists at their edge states ('all', comment + 'all', one medium, empty) given appends / deletes that are
+    refused: list, owning rule and sheet stay as they were.  Search only."""
+    import cssutils
+    import xml.dom
+    from cssutils.stylesheets import MediaQuery
+    from harness import impl
+    for base in ('all', '/*c*/ all', 'ALL /*d*/', 'tv', 'tv, print and (color)', '/*e*/ tv'):
+        for owner in ('list', 'media', 'import'):
+            for arg in ('all', 'ALL', 'All', MediaQuery('all'), 'tv', 'bogus', 'print and (', '', '/*x*/', MediaQuery('tv')):
+                for meth in ('appendMedium', 'append', 'deleteMedium'):
+                    impl.reset()
+                    if owner == 'list':
+                        sheet, ml = None, cssutils.stylesheets.MediaList(base)
+                    elif owner == 'media':
+                        sheet = cssutils.parseString('@media %s {a{left:0}}' % base)
+                        ml = sheet.cssRules[0].media if sheet.cssRules.length else None
+                    else:
+                        sheet = cssutils.parseString('@import "x.css" %s;' % base)
+                        ml = sheet.cssRules[0].media if sheet.cssRules.length else None
+                    if ml is None or (meth == 'deleteMedium' and not isinstance(arg, str)):
+                        continue
+                    argtext = arg if isinstance(arg, str) else 'MediaQuery(%r)' % arg.mediaText
+                    case = {'family': 'medialist-edge', 'kind': 'ml', 'mut': meth, 'args': [argtext], 'list': base, 'owner': owner}
+                    ctx.case(('ml-edge', base, owner, meth, argtext))
+
+                    def state():
+                        return (ml.mediaText, ml.length, [ml.item(i) for i in range(ml.length + 1)], ml.wellformed,
+                                [getattr(it, 'value', it).mediaText if hasattr(getattr(it, 'value', it), 'mediaText') else str(getattr(it, 'value', it).cssText)
+                                 for it in ml], sheet.cssText if sheet is not None else None)
+                    try:
+                        before = state()
+                        getattr(ml, meth)(arg)
+                        continue
+                    except xml.dom.DOMException as e:
+                        exc = '%s (%s)' % (type(e).__name__, str(e)[:70])
+                    except Exception as e:  # noqa
+                        ctx.violation('ml.%s-raises' % meth, case, '%s: %s' % (type(e).__name__, str(e)[:160]), KNOWN_PRED)
+                        continue
+                    try:
+                        after = state()
+                    except Exception as e:  # noqa
+                        after = ('observation raised %s: %s' % (type(e).__name__, str(e)[:100]),)
+                    if after != before:
+                        ctx.violation('ml.%s-not-atomic' % meth, case, 'ml.%s(%s) raised %s but the state changed: %r -> %r' % (meth, argtext, exc, before, after), KNOWN_PRED)
+
+
 def run(ctx):
     from harness import impl
     quick = ctx.tier == 'quick'
     value_item_family(ctx)
+    medialist_edge_family(ctx)
     cases = gen_cases(ctx)
     ctx.cov['rule'] = ('case = (prior state: random world sheet holding every rule kind, or a detached object) x (target object) x '
                        '(mutator) x (argument: valid new content with one of %d garbage strings injected at a token boundary, a '
